@@ -21,22 +21,27 @@ Definition s_title : str := [116;105;116;108;101].
 Definition s_textarea : str := [116;101;120;116;97;114;101;97].
 Definition rawtext_switch : list str := [s_style; s_xmp; s_iframe; s_noembed; s_noframes].
 Definition rcdata_switch : list str := [s_title; s_textarea].
+Definition s_script : str := [115;99;114;105;112;116].
 
 Inductive unit : Type :=
 | UTok (t : token)
 | URaw (ns : option str) (name : str) (a : attrs) (text : str)      (* <style>text</style> ... *)
-| URc (ns : option str) (name : str) (a : attrs) (text : str).      (* <title>text</title>, <textarea> *)
+| URc (ns : option str) (name : str) (a : attrs) (text : str)       (* <title>text</title>, <textarea> *)
+| UScript (ns : option str) (a : attrs) (text : str).              (* <script>text</script> *)
 
 Definition flatten (u : unit) : list token :=
   match u with
   | UTok t => [t]
   | URaw ns n a text | URc ns n a text => [TStart ns n a; TChars text; TEnd ns n]
+  | UScript ns a text => [TStart ns s_script a; TChars text; TEnd ns s_script]
   end.
 Definition rd_unit (o : sopts) (u : unit) : list otok :=
   match u with
   | UTok t => rd_tok o t
   | URaw _ n a text | URc _ n a text =>
       OStart (lower_str n) (first_wins [] (map (rd_attr o n) a)) false :: map (fun c => OChars [c]) text ++ [OEnd (lower_str n) [] false]
+  | UScript _ a text =>
+      OStart s_script (first_wins [] (map (rd_attr o s_script) a)) false :: map (fun c => OChars [c]) text ++ [OEnd s_script [] false]
   end.
 
 Definition unit_ok (o : sopts) (u : unit) : Prop :=
@@ -48,6 +53,8 @@ Definition unit_ok (o : sopts) (u : unit) : Prop :=
   | URc _ n a text =>
       mem_str n rcdata_switch = true /\
       forallb (fun x : attr => aname_ok (snd (fst x))) a = true /\ forallb (fun c => negb (c =? 0)) text = true
+  | UScript _ a text =>
+      escape_rcdata o = false /\ forallb (fun x : attr => aname_ok (snd (fst x))) a = true /\ script_ok text = true
   end.
 
 (* how a parser drives the tokenizer over the units *)
@@ -68,6 +75,12 @@ Fixpoint reads (o : sopts) (us : list unit) (k k' : tk) : Prop :=
         out k1 = OStart (lower_str n) (first_wins [] (map (rd_attr o n) a)) false :: out k /\
         sp_iter j2 (set_st rcdataState k1) = Some k2 /\ st k2 = dataState /\
         out k2 = OEnd (lower_str n) [] false :: singles_r text ++ out k1 /\ reads o r k2 k'
+  | UScript _ a text :: r =>
+      exists j1 k1 j2 k2,
+        sp_iter j1 k = Some k1 /\ st k1 = dataState /\
+        out k1 = OStart s_script (first_wins [] (map (rd_attr o s_script) a)) false :: out k /\
+        sp_iter j2 (set_st scriptDataState k1) = Some k2 /\ st k2 = dataState /\
+        out k2 = OEnd s_script [] false :: singles_r text ++ out k1 /\ reads o r k2 k'
   end.
 
 (* names *)
@@ -96,7 +109,7 @@ Proof.
   intros Hq us. induction us as [|u us IH]; intros txt errs rest cu tm out0 cd HF Hl.
   - cbn in Hl. inversion Hl; subst. eexists. split; [reflexivity|]. repeat split.
   - inversion HF as [|? ? Hu HFr]; subst. cbn [flat_map] in Hl.
-    destruct u as [t|ns n a text|ns n a text]; cbn [flatten app] in Hl.
+    destruct u as [t|ns n a text|ns n a text|ns a text]; cbn [flatten app] in Hl.
     + (* a safe token: one step of the stream theorem *)
       cbn [ser_loop] in Hl. destruct (ser_token o false t) as [[[c' txt0] e0]|] eqn:Etok; [|discriminate Hl].
       destruct (ser_loop o c' (flat_map flatten us)) as [[txt' e']|] eqn:El; [|discriminate Hl].
@@ -162,6 +175,33 @@ Proof.
       * cbn [reads]. eexists j1, k1, j2, _. split.
         { match goal with |- sp_iter _ (mk_tk _ ?X _ _ _ _ _) = _ =>
             replace X with (ser_start o false n a ++ escape text ++ ([60; 47] ++ n ++ [62]) ++ txt' ++ rest); [exact H1|] end.
+          unfold ser_start. cbn [andb app]. repeat (rewrite <- app_assoc; cbn [app]). reflexivity. }
+        split; [reflexivity|]. split; [reflexivity|].
+        split.
+        { unfold k1, set_st. cbn [st inp cur tmp out cdata_ok bad app] in H2 |- *. repeat (rewrite <- app_assoc; cbn [app]).
+          repeat (rewrite <- app_assoc in H2; cbn [app] in H2). exact H2. }
+        split; [reflexivity|]. split; [reflexivity|]. exact Hr.
+      * split; [exact G1|]. split; [exact G2|]. split; [|split; assumption].
+        rewrite G3. unfold k1. cbn [out flat_map rd_unit]. unfold singles_r.
+        rewrite rev_app_distr. cbn [rev app]. rewrite rev_app_distr. cbn [rev app]. repeat (rewrite <- app_assoc; cbn [app]). reflexivity.
+    + (* script, text without "<!" and "</" *)
+      destruct Hu as (He & Ha & Ht). set (n := s_script) in *.
+      assert (Hne : n <> []) by discriminate. assert (Hal : forallb is_alpha n = true) by reflexivity.
+      assert (Htn : tname_ok n = true) by reflexivity.
+      cbn [ser_loop ser_token] in Hl. replace (mem_str n rcdataElements) with true in Hl by reflexivity. rewrite He in Hl. cbn [negb andb] in Hl.
+      destruct (ser_loop o false (flat_map flatten us)) as [[txt' e']|] eqn:El; [|discriminate Hl].
+      inversion Hl; subst txt errs. clear Hl. rewrite <- !app_assoc.
+      destruct (start_tag_roundtrip o false n a (text ++ ([60; 47] ++ n ++ [62]) ++ txt' ++ rest) cu tm out0 cd Hq Htn Ha) as [j1 H1].
+      cbn [andb] in H1.
+      set (k1 := mk_tk dataState (text ++ ([60; 47] ++ n ++ [62]) ++ txt' ++ rest) (CTag false (lower_str n) (map (rd_attr o n) a) false) tm
+                       (OStart (lower_str n) (first_wins [] (map (rd_attr o n) a)) false :: out0) cd false) in *.
+      destruct (script_element_roundtrip n text (txt' ++ rest) (map (rd_attr o n) a) false tm (out k1) cd Hne Hal Ht) as [j2 H2].
+      destruct (IH txt' e' rest (CTag true (lower_str n) [] false) n
+                   (OEnd (lower_str n) [] false :: singles_r text ++ out k1) cd HFr eq_refl) as [k' [Hr [G1 [G2 [G3 [G4 G5]]]]]].
+      exists k'. split.
+      * cbn [reads]. eexists j1, k1, j2, _. split.
+        { match goal with |- sp_iter _ (mk_tk _ ?X _ _ _ _ _) = _ =>
+            replace X with (ser_start o false n a ++ text ++ ([60; 47] ++ n ++ [62]) ++ txt' ++ rest); [exact H1|] end.
           unfold ser_start. cbn [andb app]. repeat (rewrite <- app_assoc; cbn [app]). reflexivity. }
         split; [reflexivity|]. split; [reflexivity|].
         split.
